@@ -66,3 +66,8 @@ Definition elbo_case (n_rel metric_size : nat) (logs : list Q) (hs : list Q) (to
 Fixpoint nat_list_eqb (a b : list nat) : bool :=
   match a, b with [], [] => true | x :: r, y :: s => Nat.eqb x y && nat_list_eqb r s | _, _ => false end.
 Definition batches_case (n nb pre : nat) (obs : list nat) : bool := nat_list_eqb (batches n nb pre) obs.
+
+(* eigenvalues saved by a resumed run against those of the one-go run: the operator the solver sees on
+   resume carries the same shift that is subtracted afterwards *)
+Definition shift_case (sigma tol : Q) (ref obs : list Q) : bool :=
+  vclose tol (map (reported_eigenvalue sigma sigma) ref) obs.
